@@ -6,6 +6,10 @@ Correspondence: the real `CNF.as_opb_string`, `combine_and_save_opb` and
 (removed afterwards); tokenised text vs. the token lines of the extracted
 model; the model's pseudo-Boolean evaluator vs. the harness's own on the real
 text.  Gurobi is absent: the property is about the text.
+Layer `chars` (Text/TextChars.v): the model's OPB TEXT vs the real file bytes,
+byte for byte (as_opb_string, combine_and_save_opb on a fresh file, every
+update_file append), and the model's character-level evaluator on the real
+bytes vs the harness's independent evaluator.
 Search: for every assignment of <= 6 variables the real OPB text, evaluated by
 an independent PB evaluator written here (constraints split at ';'), must
 accept exactly when (a) the clauses hold and every request's count stands in
@@ -19,7 +23,7 @@ import itertools
 import re
 
 from common import Violation, sexp, Atom, parse_sexp
-from props.c27 import scratch, quiet, tokenise, model_file, wire_file, real_reqs, wire_reqs, rand_lit
+from props.c27 import scratch, quiet, tokenise, model_file, wire_file, real_reqs, wire_reqs, rand_lit, hx, unhx
 
 TITLE = "OPB export for the ILP sampler"
 LEVEL = "proof"
@@ -271,6 +275,44 @@ def run(ctx, res):
         note("O4-pb-evaluator", o == ("true" if w else "false"), ("pb_file_sat", o, w))
         res.count()
 
+    # ---- chars: the OPB text byte for byte -----------------------------------------------------------
+    lines = []
+    sub = cases[: (500 if q else 2500)]
+    for cls, n, reqs, prevs in sub:
+        lines += [sexp([Atom("c_opb_lines"), cls]), sexp([Atom("c_opb"), cls, wire_reqs(reqs)])]
+    outs = ctx.model(lines)
+    upd, evals, nbytes = [], [], 0
+    with scratch() as d, quiet():
+        for i, (cls, n, reqs, prevs) in enumerate(sub):
+            note("chars-write-as_opb_string", CNF(cls).as_opb_string() == unhx(outs[2 * i]), ("c_opb_lines", cls))
+            p = d / ("o%d.opb" % i)
+            m["util"].combine_and_save_opb(p, CNF(cls), n, real_reqs(m, reqs))
+            raw = p.read_bytes()
+            nbytes += len(raw)
+            note("chars-write-combine_and_save_opb", raw == (unhx(outs[2 * i + 1]) or "").encode("latin-1"), ("c_opb", cls, reqs))
+            if all(abs(l) <= 50 for c in cls for l in c) and i < (250 if q else 1000):
+                evals.append(raw.decode("latin-1"))
+            for prev in prevs:
+                before = p.read_bytes().decode("latin-1")
+                m["ilp"].update_file(p, list(prev))
+                upd.append((before, prev, p.read_bytes()))
+            if all(abs(l) <= 50 for c in cls for l in c) and i < (250 if q else 1000):
+                evals.append(p.read_bytes().decode("latin-1"))
+            p.unlink()
+    for (before, prev, after), o in zip(upd, ctx.model([sexp([Atom("c_ilp_update"), hx(b), pv]) for b, pv, _ in upd])):
+        note("chars-write-ilp-update_file", after == (unhx(o) or "").encode("latin-1"), ("c_ilp_update", before, prev))
+    lines, wants = [], []
+    for text in evals:
+        cons = opb_constraints(text)
+        for _ in range(3):
+            tv = [v for v in range(1, 10) if rng.random() < 0.5]
+            lines.append(sexp([Atom("c_pb_file_sat"), tv, hx(text)]))
+            wants.append(all(pb_holds(c, frozenset(tv)) for c in cons))
+    for o, w in zip(ctx.model(lines), wants):
+        note("chars-read-pb-evaluator", o == ("true" if w else "false"), ("c_pb_file_sat", o, w))
+    res.extra["chars_statistics"] = {"opb-files": len(sub), "opb-bytes": nbytes, "update-appends": len(upd),
+                                     "evaluated-texts": len(evals), "evaluations": len(wants)}
+
     # ---- search -------------------------------------------------------------------------------
     found = {}
 
@@ -322,7 +364,8 @@ def run(ctx, res):
         res.violations.append(Violation(
             "corr:" + k, "model Text/Opb.v and the real OPB export disagree on layer(s) %s, e.g. %r" % (
                 ", ".join("%s (%d)" % (a, len(b)) for a, b in sorted(broken.items())), broken[k][0]),
-            {"layers": sorted(broken), "theorems": ["C28_opb_clause_equiv", "C28_opb_request_equiv", "C28_opb_block_excludes_exactly"],
+            {"layers": sorted(broken), "theorems": ["C28_opb_clause_equiv", "C28_opb_request_equiv", "C28_opb_block_excludes_exactly", "C28_opb_file_chars",
+                           "C28_opb_block_chars"],
              "first_mismatch": repr(broken[k][0])}, failing_input=False))
 
 
